@@ -1446,10 +1446,14 @@ func fixedOffsetCase(c *core.Ctx, r *rand.Rand) {
 				// makes of the same bytes (no offsets), not to the previous table
 				c.Branch("fo-empty-table-on-used-decoder")
 				c.NonTrivial()
+				emptyOut := "ok"
+				if uerr != nil {
+					emptyOut = foErr(uerr)
+				}
 				var fresh *encoding.FixedOffsetDecoder
 				guard(c, fmt.Sprintf("fd new %d", freshOff), func() string { fresh = encoding.NewFixedOffsetDecoder(); return "ok" })
 				foUnm(c, freshOff, fresh, full)
-				foAskBoth(c, r, 0, dec, fresh, heldN, fmt.Sprintf("that held a table of %d offsets and was then given the marshalled EMPTY table (+%d trailing bytes; Unmarshal error: %v)", heldN, len(junk), uerr), uerr != nil)
+				foAskBoth(c, r, 0, dec, fresh, heldN, fmt.Sprintf("that held a table of %d offsets and was then given the marshalled EMPTY table (+%d trailing bytes; Unmarshal: %s)", heldN, len(junk), emptyOut), uerr != nil)
 				c.Op(fmt.Sprintf("fd rel %d", freshOff), "ok")
 			}
 			heldN, heldData = 0, nil
